@@ -81,6 +81,11 @@ impl RawRwLock {
     pub(crate) fn can_write(&self) -> bool {
         self.state.load(Ordering::SeqCst) == 0
     }
+    #[inline]
+    pub(crate) fn is_read_held(&self) -> bool {
+        let s = self.state.load(Ordering::SeqCst);
+        s != 0 && s != WRITER
+    }
     /// Write lock -> one read lock (used by the dashmap shim's RawRwLockDowngrade).
     ///
     /// # Safety
